@@ -144,7 +144,9 @@ def main():
             if states:
                 ck.sample({"kind": "model-state", "state": states[len(states) // 2]})
                 want = 150 if tier == "quick" else 1200
-                subset.extend(rnd.sample(states, min(want // len(cfgs) + 1, len(states))))
+                # program level: the aligner's reference is poly-A, and the read extractor insists that REF matches it
+                allA = [s for s in states if all(b == "A" for b in s["ref"])]
+                subset.extend(rnd.sample(allA, min(want // len(cfgs) + 1, len(allA))))
             del states
         killed = 0
         for cfg, inv in (("Mutant_unique.cfg", "RefRowZero"), ("Mutant_reffirst.cfg", "FirstAppearanceNumbering"),
@@ -206,6 +208,15 @@ def main():
             continue
         cargs = ["--bam"] + bams + (["--ploidy", str(ploidy)] if ploidy else [a for a in extra if a.startswith("@") or a in ("--ploidy", "--sample-pool")])
         inputs.append(("run:assemble#%d %s" % (len(inputs), " ".join(extra[:4])), rr["result"]["out"], cargs))
+    # the real command line once: `mchap assemble ...` in a fresh interpreter; its stdout joins the pipeline inputs
+    cr = pool.map_tasks("impl.c12", [{"op": "cli", "argv": ["assemble", "--bam"] + BAMS + ["--ploidy", "4"] + base +
+                                      ["--mcmc-seed", str(ck.seed + 11), "--haplotype-posterior-threshold", "0.9"]}], mode="jit", warm_first=False)[0]
+    cli_input = None
+    if cr["ok"] and cr["result"]["rc"] == 0:
+        cli_input = len(inputs)
+        inputs.append(("cli:assemble", cr["result"]["out"], ["--bam"] + BAMS + ["--ploidy", "4"]))
+    else:
+        ck.note("cli_assemble_failed", str(cr)[:300])
     ck.note("assemble_runs", len(aruns))
     ck.note("assemble_runs_failed", n_asm_fail)
 
@@ -228,7 +239,7 @@ def main():
             src = abstract_src(r)
             if label.startswith("model"):
                 continue
-            events.append({"src": src, "prog": "none", "crashed": False, "present": True, "out": EMPTY_OUT})
+            events.append({"kind": "pair", "src": src, "prog": "none", "crashed": False, "present": True, "out": EMPTY_OUT})
             meta.append({"input": label, "line": r.line[:400]})
             shapes["REFMASKED"] += "REFMASKED" in r.info
             shapes["no-ALT"] += not r.alts
@@ -249,10 +260,65 @@ def main():
         for r in vcftext.parse(text).records:
             src = abstract_src(r)
             got = outs.get((r.chrom, r.pos, r.id), [])
-            ev = {"src": src, "prog": prog, "crashed": crashed, "present": len(got) == 1, "out": abstract_out(got[0]) if len(got) == 1 else EMPTY_OUT}
+            ev = {"kind": "pair", "src": src, "prog": prog, "crashed": crashed, "present": len(got) == 1, "out": abstract_out(got[0]) if len(got) == 1 else EMPTY_OUT}
             events.append(ev)
             meta.append({"input": label, "prog": prog, "line": r.line[:400], "error": o.get("error"), "chain": o.get("chain"),
                          "output": got[0].line[:400] if len(got) == 1 else None})
+    if cli_input is not None:
+        # ... and `mchap call-exact` on it through the command line: exit status 0, same records as in-process
+        k = cli_input
+        argv = list(inputs[k][2]) + ["--haplotypes", os.path.join(wdir, "in-%d.vcf" % k)]
+        cr = pool.map_tasks("impl.c12", [{"op": "cli", "argv": ["call-exact"] + argv}], mode="jit", warm_first=False)[0]
+        inproc = [rr["result"] for (kk, prog, _), rr in zip(pruns, res) if kk == k and prog == "call-exact"][0]
+        ck.evaluations += 1
+        if not cr["ok"]:
+            ck.machinery_failure("cli worker: %s" % cr["error"])
+        if cr["result"]["rc"] != 0:
+            ck.violation("aborted", {"cli": "mchap call-exact on the stdout of mchap assemble", "exit_status": cr["result"]["rc"],
+                                     "stderr_tail": cr["result"]["err"][-400:]}, key={"site": "cli:call-exact", "error": "exit-status"})
+        elif "out" in inproc:
+            dl = lambda t: [l for l in t.splitlines() if l and not l.startswith("##")]
+            if dl(cr["result"]["out"]) != dl(inproc["out"]):
+                ck.violation("cli-differs", {"cli": "mchap call-exact"}, key={"site": "cli:call-exact", "field": "records"})
+        ck.note("cli_pipeline_runs", 2)
+    # ---- code -> spec for the codec itself: seeded random records beyond the model bounds ----
+    nrand = 400 if tier == "quick" else 5000
+    rrecs = []
+    for i in range(nrand):
+        L = rnd.randint(1, 12)
+        ref = [rnd.choice("ACGT") for _ in range(L)]
+        hot = [p_ for p_ in range(L) if rnd.random() < 0.4]
+        rows = [ref]
+        for _ in range(rnd.randint(0, 6)):
+            h = list(ref)
+            for p_ in hot:
+                if rnd.random() < 0.6:
+                    h[p_] = rnd.choice("ACGT")
+            if h not in rows:
+                rows.append(h)
+        rrecs.append({"ref": ref, "alts": rows[1:]})
+    rtasks = []
+    for a in range(0, nrand, 500):
+        sub = rrecs[a:a + 500]
+        rtasks.append({"op": "codec", "dir": wdir, "text": header() + "".join(line(s, 3 + j % 40, "R%d" % j) for j, s in enumerate(sub))})
+    rres = pool.map_tasks("impl.c12", rtasks, mode="jit", warm_first=False)
+    flat = []
+    for rr in rres:
+        if not rr["ok"]:
+            ck.machinery_failure("codec worker: %s" % rr["error"])
+        flat.extend(rr["result"])
+    n_codec = 0
+    for s, o in zip(rrecs, flat):
+        a = o["seq"]
+        if "error" in a:
+            ck.violation("aborted", {"REF": "".join(s["ref"]), "ALT": ["".join(x) for x in s["alts"]], "error": a["error"]},
+                         key={"site": SITE, "path": "sequences", "error": a["etype"]})
+            continue
+        events.append({"kind": "codec", "ref": s["ref"], "alts": s["alts"], "cols": a["cols"], "alleles": a["alleles"],
+                       "matrix": a["matrix"], "decoded": [list(x) for x in a["decoded"]]})
+        meta.append({"input": "random-record", "line": "REF=%s ALT=%s" % ("".join(s["ref"]), ",".join("".join(x) for x in s["alts"]))})
+        n_codec += 1
+    ck.note("random_codec_records", n_codec)
     ck.note("pipeline_inputs", len(inputs))
     ck.note("pipeline_program_runs", len(pruns))
     ck.note("assemble_record_shapes", shapes)
@@ -271,7 +337,10 @@ def main():
     for p in t.printed:
         if "reject" in p:
             e, m = events[p["reject"] - 1], meta[p["reject"] - 1]
-            if p["clause"] == "RunAborted":
+            if e["kind"] == "codec":
+                ck.violation("trace-reject", dict(m, clause=p["clause"], impl={k: e[k] for k in ("cols", "alleles", "matrix")}),
+                             key={"site": SITE, "clause": p["clause"]})
+            elif p["clause"] == "RunAborted":
                 root = (m.get("chain") or [m.get("error") or "?"])[-1].split(":")[0]
                 ck.violation("aborted", m, key={"site": "program:" + e["prog"], "error": root,
                                                 "refmasked_input": "REFMASKED" in m["line"]})
@@ -280,9 +349,13 @@ def main():
     ck.traces += len(events)
     ck.evaluations += len(events)
     ck.note("pipeline_pairs_validated", len(events))
-    good = [e for e in events if e["prog"] != "none" and not e["crashed"] and e["present"] and e["out"]["alts"] and e["out"]["snvpos"]]
+    rejected = {p["reject"] - 1 for p in t.printed if "reject" in p}
+    good = [e for i, e in enumerate(events) if i not in rejected and e["kind"] == "pair" and e["prog"] != "none" and not e["crashed"] and e["present"]
+            and len(e["out"]["alts"]) >= 2 and len(e["out"]["snvpos"]) >= 2 and e["src"]["has_snvpos"]]
     if not good:
-        ck.machinery_failure("no pipeline pair to corrupt")
+        if not ck.violations:
+            ck.machinery_failure("no accepted pipeline pair to corrupt")
+        finish(ck, wdir)
     ck.sample({"kind": "pipeline-pair", "event": good[0]})
     bads = []
     b = copy.deepcopy(good[0]); b["out"]["alts"] = b["out"]["alts"][::-1] + [b["out"]["ref"]]; bads.append((b, "SameAlt"))
@@ -292,6 +365,17 @@ def main():
     b = copy.deepcopy(good[0]); b["out"]["gts"][0][0] = -1; b["out"]["filters"] = ["PASS"]; bads.append((b, "GenotypeComplete"))
     b = copy.deepcopy(good[0]); b["src"]["has_snvpos"] = True; b["src"]["snvpos"] = b["out"]["snvpos"][1:]; bads.append((b, "SnvColsSubsetOfSNVPOS"))
     b = copy.deepcopy(good[0]); b["present"] = False; bads.append((b, "RecordEmitted"))
+    gc = [e for i, e in enumerate(events) if i not in rejected and e["kind"] == "codec" and len(e["cols"]) >= 2 and len(e["matrix"]) >= 3]
+    if gc:
+        b = copy.deepcopy(gc[0]); b["matrix"][1][0] += 1; bads.append((b, "Encode"))
+        b = copy.deepcopy(gc[0]); b["cols"] = b["cols"][1:]; bads.append((b, "SnvColsArePolymorphic"))
+        b = copy.deepcopy(gc[0]); b["decoded"][1][b["cols"][0] - 1] = "N"; bads.append((b, "RoundTrip"))
+        withmulti = [e for e in gc if any(len(a) >= 3 for a in e["alleles"])]
+        if withmulti:
+            b = copy.deepcopy(withmulti[0])
+            j = [len(a) >= 3 for a in b["alleles"]].index(True)
+            b["alleles"][j] = [b["alleles"][j][0]] + b["alleles"][j][1:][::-1]
+            bads.append((b, "FirstAppearanceNumbering"))
     tfb = os.path.join(ck.wd, "trace-corrupt.json")
     with open(tfb, "w") as fh:
         json.dump([b for b, _ in bads], fh)
@@ -301,6 +385,10 @@ def main():
         if rej.get(i + 1) != clause:
             ck.machinery_failure("corrupted trace %d not rejected by %s (got %s)" % (i + 1, clause, rej.get(i + 1)))
     ck.note("corrupted_traces_rejected", len(bads))
+    finish(ck, wdir)
+
+
+def finish(ck, wdir):
     try:
         import shutil
 
